@@ -35,13 +35,32 @@ def kuhn_max_matching(nu, nv, edges):
 
 
 def min_cover_size_enum(nu, nv, edges):
-    """size of a minimum vertex cover by enumeration over subsets of U (then V is forced)"""
+    """size of a minimum vertex cover by enumeration over the subsets of the SMALLER side (the other side is then forced:
+    exactly the far endpoints of the edges whose near endpoint is left out); bit masks, exact"""
     es = set(map(tuple, edges))
+    if nv < nu:
+        nu, nv, es = nv, nu, {(v, u) for (u, v) in es}
+    nbr = [0] * nu
+    for (u, v) in es:
+        nbr[u] |= 1 << v
     best = nu + nv
     for mask in range(1 << nu):
-        need_v = {v for (u, v) in es if not (mask >> u) & 1}
-        best = min(best, bin(mask).count("1") + len(need_v))
+        need = 0
+        for u in range(nu):
+            if not (mask >> u) & 1:
+                need |= nbr[u]
+        best = min(best, bin(mask).count("1") + bin(need).count("1"))
     return best
+
+
+def rect_shapes_oracle_only(thorough):
+    """rectangular shapes whose EVERY edge set is run against the oracle only (no model evaluation): the shapes with a side
+    of 4 or 5 that the tied enumeration of the quick tier does not reach; thorough adds 2x6, 6x2, 3x5, 5x3"""
+    shapes = [(1, 4), (4, 1), (2, 4), (4, 2), (3, 4), (4, 3), (2, 5), (5, 2)]
+    if thorough:
+        # sides <= 4 are enumerated WITH the tie in the thorough tier already
+        shapes = [(2, 5), (5, 2), (2, 6), (6, 2), (3, 5), (5, 3)]
+    return shapes
 
 
 class C14(Prop):
@@ -49,7 +68,12 @@ class C14(Prop):
     title = "bipartite vertex cover"
     design_ref = "DESIGN.md section 5 / C14"
     rule = ("graph cases: every edge set on sides <= 3x3 (quick) / <= 4x4 (thorough) in row-major order, plus seeded random graphs "
-            "up to 8x8 with shuffled edge order, duplicate edge entries and isolated vertices; koenig cases: a random valid "
+            "up to 8x8 with shuffled edge order, duplicate edge entries and isolated vertices, plus 'deficient' random graphs "
+            "(k U vertices crowded on fewer than k V vertices, so that some U vertex stays unmatched and the Koenig exploration "
+            "walks alternating paths; half of them wide num_v > num_u, else tall/square; random vertex numbering; sides up to 9x13); "
+            "oracle-only graph cases (flag notie, the model is not evaluated): every edge set of the rectangular shapes "
+            "1x4 4x1 2x4 4x2 3x4 4x3 2x5 5x2 (quick) / 2x5 5x2 2x6 6x2 3x5 5x3 (thorough), and the random + deficient families "
+            "on sides up to 14x20; koenig cases: a random valid "
             "(not necessarily maximum) matching handed to _explore_alternating_paths; malformed cases: sides < 1, out-of-range / "
             "negative endpoints (both sides must reject). non-trivial = at least one edge; distinct by case content")
     clauses = [
@@ -65,7 +89,9 @@ class C14(Prop):
               "all clauses together incl. minimality of the cover and maximality of the matching: C14_mvc_main"),
         ("F", "the in-Coq equality tests used by the correspondence are sound (C14_all_eqb_sound, C14_koenig_eqb_sound)"),
         ("V", "model = code: exact differential comparison of adjacency lists, matching (order included), both cover lists, outcome of the "
-              "size assert and the per-start visit orders of _explore_alternating_paths, on every explored graph; rejected inputs on both sides"),
+              "size assert and the per-start visit orders of _explore_alternating_paths, on every explored graph that is not flagged oracle-only "
+              "(distribution counter tie:model); rejected inputs on both sides. The oracle-only graphs (tie:oracle_only) are judged by the property "
+              "oracle alone: cover touches every edge, vertices exist, size = Kuhn maximum matching = exact minimum cover by enumeration"),
     ]
     trusted_base = ["inputs are Python ints (sides) and a sequence of int pairs (the documented domain of BipartiteGraph)",
                     "set(range(n)) is iterated in ascending order by CPython for small ints; irrelevant for the result "
@@ -85,9 +111,26 @@ class C14(Prop):
                     for mask in range(1 << len(alle)):
                         edges = [list(e) for i, e in enumerate(alle) if (mask >> i) & 1]
                         cases.append({"kind": "graph", "nu": nu, "nv": nv, "edges": edges})
+            # every edge set of further RECTANGULAR shapes (wide and tall), oracle only (the model is not evaluated on them)
+            for (nu, nv) in rect_shapes_oracle_only(ctx.thorough()):
+                alle = [(u, v) for u in range(nu) for v in range(nv)]
+                for mask in range(1 << len(alle)):
+                    edges = [list(e) for i, e in enumerate(alle) if (mask >> i) & 1]
+                    cases.append({"kind": "graph", "nu": nu, "nv": nv, "edges": edges, "notie": True})
         nrand = ctx.scale(400, 4000) * budget_scale
         for _ in range(nrand):
             cases.append(self._random_graph(rng))
+        # graphs with a DEFICIENT matching on the U side (several U vertices crowd on fewer V vertices), so that the Koenig
+        # exploration really starts somewhere and walks alternating paths; wide (num_v > num_u), tall and square, random
+        # vertex numbering, sides up to 9 x 13; tied to the model
+        rng2 = ctx.rng(stream + ":rect")     # own stream: the older families keep their cases per seed
+        for _ in range(ctx.scale(150, 1500) * budget_scale):
+            cases.append(self._random_deficient_graph(rng2, 9, 4))
+        # the same two random families on larger sides (up to 14 x 20), oracle only
+        for _ in range(ctx.scale(1500, 15000) * budget_scale):
+            c = self._random_deficient_graph(rng2, 14, 6) if rng2.random() < 0.7 else self._random_graph(rng2, 14, 20)
+            c["notie"] = True
+            cases.append(c)
         # graphs that need MANY Hopcroft-Karp phases: disjoint unions of paths P_k whose greedy first phase
         # leaves a single augmenting path of length 2k+1 (P_k is completed only in phase k+1), in several
         # vertex numberings / edge orders, plus isolated vertices and duplicate entries
@@ -146,9 +189,47 @@ class C14(Prop):
         return cases
 
     @staticmethod
-    def _random_graph(rng):
-        nu = rng.randrange(1, 9)
-        nv = rng.randrange(1, 9)
+    def _random_deficient_graph(rng, maxu, widen):
+        nu = rng.randrange(2, maxu + 1)
+        shape = rng.random()
+        if shape < 0.5:       # wide: more V than U vertices
+            nv = nu + rng.randrange(1, widen + 1)
+        elif shape < 0.75:    # tall or square
+            nv = rng.randrange(1, nu + 1)
+        else:
+            nv = rng.randrange(1, maxu + widen + 1)
+        pu = list(range(nu)); pv = list(range(nv))
+        if rng.random() < 0.8:
+            rng.shuffle(pu)
+        if rng.random() < 0.8:
+            rng.shuffle(pv)
+        k = rng.randrange(2, nu + 1)                 # crowded U vertices ...
+        h = rng.randrange(1, min(k, nv + 1))         # ... on fewer hub V vertices: at least k - h of them stay unmatched
+        crowded, free = pu[:k], pu[k:]
+        hubs, rest = pv[:h], pv[h:]
+        edges = []
+        for u in crowded:
+            for v in rng.sample(hubs, rng.randrange(1, min(h, 3) + 1)):
+                edges.append([u, v])
+        for u in free:
+            pool = rest if (rest and rng.random() < 0.7) else pv
+            for v in rng.sample(pool, rng.randrange(1, min(len(pool), 3) + 1)):
+                edges.append([u, v])
+            if rng.random() < 0.3:                   # lets alternating paths leave the crowded part
+                edges.append([u, rng.choice(hubs)])
+        if rng.random() < 0.3:                       # a few arbitrary extra edges
+            for _ in range(rng.randrange(1, 4)):
+                edges.append([rng.randrange(nu), rng.randrange(nv)])
+        rng.shuffle(edges)
+        if rng.random() < 0.3:                       # explicit duplicates
+            for _ in range(rng.randrange(1, 3)):
+                edges.insert(rng.randrange(len(edges) + 1), list(rng.choice(edges)))
+        return {"kind": "graph", "nu": nu, "nv": nv, "edges": edges, "family": "deficient"}
+
+    @staticmethod
+    def _random_graph(rng, maxu=8, maxv=8):
+        nu = rng.randrange(1, maxu + 1)
+        nv = rng.randrange(1, maxv + 1)
         style = rng.random()
         if style < 0.25:      # sparse, many isolated vertices
             ne = rng.randrange(0, max(nu, nv) + 1)
@@ -173,7 +254,14 @@ class C14(Prop):
         for x in cases:
             c["kind:" + x["kind"]] += 1
             c["sides:%dx%d" % (max(x["nu"], 0), max(x["nv"], 0))] += 1
+            c["tie:" + ("oracle_only" if x.get("notie") else "model")] += 1
+            if x.get("family"):
+                c["family:" + x["family"]] += 1
+            if x["kind"] != "malformed":
+                c["shape:" + ("wide" if x["nv"] > x["nu"] else "tall" if x["nv"] < x["nu"] else "square")] += 1
             es = [tuple(e) for e in x["edges"]]
+            if x["kind"] == "graph" and x["nu"] >= 1 and x["nv"] >= 1 and kuhn_max_matching(x["nu"], x["nv"], es) < x["nu"]:
+                c["with_unmatched_u_vertex"] += 1
             if len(set(es)) < len(es):
                 c["with_duplicate_entries"] += 1
             if x["kind"] != "malformed" and x["nu"] >= 1 and x["nv"] >= 1:
@@ -262,8 +350,8 @@ class C14(Prop):
         out = [None] * len(cases)
         full = []
         for i, (c, ob) in enumerate(zip(cases, obs)):
-            if isinstance(ob, lib.SkipCase):
-                continue
+            if isinstance(ob, lib.SkipCase) or c.get("notie"):
+                continue        # oracle-only case: no model value, the tie is skipped (lib.run_check: mo is None)
             exp = self._expected(c, ob)
             a = f"{coq_z(c['nu'])} {coq_z(c['nv'])} {_pairs(c['edges'])}"
             if exp is None:
@@ -404,7 +492,7 @@ class C14(Prop):
             return f"matching has size {len(m)}, a maximum matching has size {mm}"
         if len(uc) + len(vc) != mm:
             return f"cover size {len(uc) + len(vc)} != maximum matching size {mm}"
-        if nu <= 10:
+        if min(nu, nv) <= 10:
             mc = min_cover_size_enum(nu, nv, edges)
             if len(uc) + len(vc) != mc:
                 return f"cover size {len(uc) + len(vc)} but a cover of size {mc} exists"
